@@ -109,10 +109,15 @@ static std::string g_port() {
     case 3: return std::to_string(one_of({65536, 100000, 2147483647ull, 2147483648ull, 4294967294ull, pick(65536, 4294967295ull)}));
     case 4: return "4294967295";
     case 5: return one_of_v<std::string>({"4294967296", "4294967297", "9999999999", "10000000000", "8589934591", "42949672950"});
-    case 6: return one_of_v<std::string>({"18446744073709551615", "18446744073709551616", "99999999999999999999", "10000000000000000000",
-                                         "18446744073709551695", "184467440737095516150", "36893488147419103231"});
-    case 7: { // leading zeros
-        std::string z((size_t)one_of({1, 2, 5, 9, 10, 11, 19, 20, 25}), '0');
+    case 6:
+        if (chance(25)) { // very long out-of-range numbers: 255..258 and 512 nines, "80" followed by 254..256 zeros
+            size_t n = (size_t)one_of({255, 256, 257, 258, 512, 513});
+            return chance(50) ? std::string(n, '9') : "80" + std::string(n - 2, '0');
+        }
+        return one_of_v<std::string>({"18446744073709551615", "18446744073709551616", "99999999999999999999", "10000000000000000000",
+                                      "18446744073709551695", "184467440737095516150", "36893488147419103231"});
+    case 7: { // leading zeros, up to and across 255/256/257 characters of port text (a length kept in a narrow type wraps there)
+        std::string z((size_t)one_of({1, 2, 5, 9, 10, 11, 19, 20, 25, 250, 254, 255, 256, 257, 300, 510, 512}), '0');
         return z + one_of_v<std::string>({"", "0", "7", "80", "65535", "4294967295", "4294967296", "18446744073709551616"});
     }
     default: { // not a number
